@@ -10,11 +10,12 @@ and every frame on the air is checked against the LR, the bit rate and the
 LLCP MIU of its receiver.
 
 legs
-  grid     quick: seeded pairwise-covering sample over role x brs x lri x lrt
-           x rwt x miu(8 values, each side) x lto x agf x lsc x DID x bound
-           services; thorough: the complete grid role x brs x lri x lrt x
-           rwt x miu(4 values each side) = 23040 activations, remaining
-           parameters seeded
+  grid     the complete grid role x brs x lri x lrt x rwt x miu(4 values each
+           side) = 23040 activations (thorough; quick: sub-grid of 144),
+           remaining parameters seeded
+  pairwise seeded pairwise-covering arrays over role x brs x lri x lrt x rwt
+           x miu(8 values, each side) x lto x agf x lsc x bound services,
+           DID on every fifth row, with traffic
   random   Hypothesis over all of it, including omitted options (defaults),
            acm, traffic shapes and SNEP lengths
 
@@ -638,32 +639,43 @@ def pairwise_rows(rng):
     return rows
 
 
+def enum_pairwise(tier, seed):
+    rng = _random.Random(derive_seed(seed, PROPERTY, "pairwise"))
+    for _ in range(2 if tier == "quick" else 6):   # independent arrays
+        for row in pairwise_rows(rng):
+            yield grid_case(row, rng, traffic=True)
+
+
 def enum_grid(tier, seed):
     rng = _random.Random(derive_seed(seed, PROPERTY, "grid", tier))
     if tier == "quick":
-        for _ in range(2):          # two independent covering arrays
-            for row in pairwise_rows(rng):
-                yield grid_case(row, rng, traffic=True)
-        return
-    for role, brs, lri, lrt, rwt, mi, mt in itertools.product(
-            ["fixed", "i-auto"], range(3), range(4), range(4), range(15),
-            MIUS4, MIUS4):
+        axes = (["fixed"], range(3), range(4), range(4), [0, 8, 14], [248],
+                [248])
+    else:
+        axes = (["fixed", "i-auto"], range(3), range(4), range(4), range(15),
+                MIUS4, MIUS4)
+    for role, brs, lri, lrt, rwt, mi, mt in itertools.product(*axes):
         yield grid_case({"role": role, "i.brs": brs, "i.lri": lri,
                          "t.lrt": lrt, "t.rwt": rwt, "i.miu": mi,
                          "t.miu": mt}, rng, traffic=False)
 
 
 LEGS = [
-    Leg("grid", run=run, enum=enum_grid, exhaustive=True, shards_quick=8,
+    Leg("grid", run=run, enum=enum_grid, exhaustive=True, shards_quick=4,
         shards_thorough=16,
-        rule="quick: two greedy seeded pairwise-covering arrays over role(3) x brs "
-             "x lri x lrt x rwt(15) x miu(8, each side) x lto(5, each side) "
-             "x agf x lsc(4) (each side) x SNEP service bound (each side), "
-             "DID {1, 7, 14} on every fifth row, with UI datagrams at MIU-1/MIU/MIU+1 and a "
-             "SNEP put; thorough: complete grid role{fixed, i-auto} x brs x "
-             "lri x lrt x rwt x miu{128,248,1000,2175}^2 = 23040 activations "
-             "(other parameters seeded), one MIU-sized datagram each way; "
+        rule="complete grid; thorough: role{fixed, i-auto} x brs x lri x lrt "
+             "x rwt 0..14 x miu{128,248,1000,2175}^2 = 23040 activations, "
+             "quick: the sub-grid brs x lri x lrt x rwt{0,8,14} = 144; the "
+             "remaining parameters (lto, agf, lsc, services, DID on every "
+             "fifth point) are seeded; one MIU-sized datagram each way; "
              "non-trivial = sides differ in miu, lr or lto, or brs > 0."),
+    Leg("pairwise", run=run, enum=enum_pairwise, exhaustive=False,
+        shards_quick=8, shards_thorough=8,
+        rule="greedy seeded pairwise-covering arrays (2 quick / 6 thorough) "
+             "over role(3) x brs x lri x lrt x rwt(15) x miu(8, each side) x "
+             "lto(5, each side) x agf x lsc(4) (each side) x SNEP service "
+             "bound (each side), DID {1, 7, 14} on every fifth row, with UI "
+             "datagrams at MIU-1/MIU/MIU+1 and a SNEP put; same rule."),
     Leg("random", run=run, gen=lambda tier: st_case(), quick=1200,
         thorough=16000, shards_quick=8, shards_thorough=16, nt_floor=0.5,
         rule="Hypothesis: every option present or omitted (defaults), miu "
